@@ -82,7 +82,7 @@ ASSUMPTIONS = [
     "of other side effects of those calls is decided by the oracle",
 ]
 TRUSTED = ["matplotlib Agg backend, lxml, protobuf runtime (used only to run the operations under test and to erase the date)"]
-REQUIRED_BUCKETS = ["problem-init:acceleration-unset", "problem-init:acceleration-set"] + ["drawn-light-on-incoming:" + d_ for d_ in
+REQUIRED_BUCKETS = ["traj:ks-unc-offcentre-queried", "problem-init:acceleration-unset", "problem-init:acceleration-set"] + ["drawn-light-on-incoming:" + d_ for d_ in
                     ("ALL", "RIGHT", "STRAIGHT", "LEFT", "LEFT_STRAIGHT", "STRAIGHT_RIGHT", "LEFT_RIGHT")] + ["dims:checked", "op:net_find", "op:pred_q", "op:state_q", "op:cycle_q", "op:shape_q", "op:interval_q", "op:sign_interp", "op:viz_util",
                     "op:read_back", "op:write_x", "lanelet_q:merge_direct", "draw:reuse", "pre:translate", "pre:query", "pre:set_same_traj",
                     "pre:remove_readd", "pre:failed_add", "spec:areas", "spec:map_info", "spec:no-dynamic", "spec:id-0", "draw:speed-limit-sign-rendered", "draw-flag:draw_traffic_signs", "draw:signs", "op:reached_own", "traj:custom-full", "op:occ", "op:state", "op:occs", "op:find_pos", "op:light", "op:reached", "op:eq", "op:hash", "op:copy",
@@ -262,7 +262,8 @@ def gen_spec(r, tiny=False):
     for _ in range(r.choice([0, 1, 2, 2, 3]) if not tiny else r.choice([1, 1, 2])):
         t0 = r.choice([0, 0, 0, 1, 3])
         kind = r.choice(["traj", "traj", "traj", "traj", "set", "none"])
-        shape = gen_shape(r, ("rect", "rect", "circ", "poly", "group"), (0.0, 0.0))
+        # the obstacle shape lives in the local frame; its reference point need not be the origin
+        shape = gen_shape(r, ("rect", "rect", "circ", "poly", "group"), (0.0, 0.0) if r.random() < 0.6 else (r.choice([2.0, -1.5]), r.choice([1.0, 0.0, -0.5])))
         d = {"id": nid(), "type": r.choice(["CAR", "TRUCK", "BICYCLE", "PEDESTRIAN", "BUS"]), "shape": shape, "init": init_state(t0),
              "pred": None, "init_signal": gen_signal(r, t0) if r.random() < 0.4 else None,
              "signal_series": None, "center_ids": sorted(r.sample(lids, 1)) if lids and r.random() < 0.3 else None,
@@ -686,6 +687,20 @@ def gen_case(ctx, tiny=False, allow_draw=True, recipe=None):
             if r.random() < 0.5:
                 ops.insert(r.randint(0, len(ops)), ["viz_util", "colors", r.choice([0, 1, 3])])
             return {"spec": spec, "ops": ops}
+        if recipe == "unc":
+            # uncertain trajectory states (position region / orientation interval) of an obstacle whose shape is off-centre, and the first
+            # evaluation of its occupancies
+            c = [d for d in spec["dynamic"] if d["pred"] and d["pred"]["kind"] == "traj" and d["pred"]["cls"] == "ks-unc"
+                 and d["shape"][0] in ("rect", "circ", "poly") and not (d["shape"][0] in ("rect", "circ") and d["shape"][-3 if d["shape"][0] == "rect" else -2] == 0.0
+                                                                         and d["shape"][-2 if d["shape"][0] == "rect" else -1] == 0.0)]
+            if not c:
+                continue
+            d = r.choice(c)
+            ops = gen_ops(r, spec, allow_draw=allow_draw)
+            ops.insert(0, r.choice([["occ", d["id"], d["pred"]["t1"] + r.randint(0, len(d["pred"]["states"]) - 1)], ["occset", d["id"]],
+                                    ["occs", d["pred"]["t1"], None], ["pred_q", d["id"], d["pred"]["t1"]]]))
+            case = {"spec": spec, "ops": ops, "tags": ["traj:ks-unc-offcentre-queried"]}
+            return case
         if recipe == "sign":
             # a real (non-virtual) speed-limit sign with a numeric value, and a rendering that shows traffic signs: through the
             # draw parameter (off by default) or by handing the signs to the renderer
@@ -2113,6 +2128,8 @@ def run_case(ctx, case, with_model=True, old_pb=False):
     apply_pre(twin[0], twin[1], pre)
     for x in pre:
         ctx.tag("pre:" + x[0])
+    for x in case.get("tags", []):
+        ctx.tag(x)
     _tag_spec(ctx, spec)
     ctx.case(case)
     I = Intern()
@@ -2383,6 +2400,8 @@ def run(ctx):
     n = ctx.n(110)
     for i in range(n):
         recipe = {1: "merge", 3: "sign", 6: "vvy", 8: "sign", 11: "tbl", 13: "reach", 16: "merge", 18: "reach"}.get(i % 20)
+        if i % 20 in (9, 19):
+            recipe = "unc"
         if i % 10 == 4:
             recipe = ["inter", ALL_DIRECTIONS[(i // 10) % len(ALL_DIRECTIONS)]]       # every direction in turn
         run_case(ctx, gen_case(ctx, tiny=(i % 4 == 3 and recipe is None), allow_draw=(i % 5 == 0), recipe=recipe))
